@@ -216,6 +216,20 @@ Theorem join_replay_overtakes_event_refuted :
   fold_left bapply [BPut 2 21] [(1, 10); (2, 20)] = [(2, 21); (1, 10)].
 Proof. repeat split; reflexivity. Qed.
 
+(* ------------------------------------------------------------------ watcher looked up by key per event (seeded change C13-8) *)
+(* etcd: put 1=10, put 2=20 (one response), delete 2.  Generation 0's goroutine is held in the
+   listener call of the first event; the last subscriber closes, the key is monitored again:
+   generation 1 loads {1 -> 10} (after the delete) and watches from there.  The old goroutine
+   resumes with PUT 2 20: bound to its own watchValue it is harmless; looked up by key it lands
+   in generation 1, whose values (and subscribers) now hold 20 although etcd does not, and no
+   later event of generation 1's watch repairs it. *)
+Theorem lookup_by_key_per_event_refuted :
+  let gs := [[(1, 10)]; [(1, 10)]] in
+  etcd_state [BPut 1 10; BPut 2 20; BDel 2] 3 = [(1, 10)] /\
+  nth 1 (apply_bound 0 [BPut 2 20] gs) [] = [(1, 10)] /\
+  nth 1 (apply_bykey [BPut 2 20] gs) [] = [(2, 20); (1, 10)].
+Proof. repeat split; reflexivity. Qed.
+
 (* ------------------------------------------------------------------ kube: boundary of kube_view_exact *)
 (* Outside the informer discipline the handler is NOT exact (it unions on OnAdd and
    subtracts on OnDelete): an OnAdd carrying an object that has LOST an address since the
